@@ -962,3 +962,111 @@ Proof. split; [exact @shared_hash_key | exact toy_block_key_not_authenticated]. 
 Lemma real_id_roundtrip : encode wit_oracles Private wit_ks (bs "1790793070") [] 1%N = Ok wit_id /\
                           decode wit_oracles Private wit_ks wit_id = Ok 1%N.
 Proof. split; [exact wit_encode | exact (proj1 wit_repaired_accepts_one)]. Qed.
+
+(* ---- NewHub: the key set a hub runs with (config_keyset) ------------------------------------------ *)
+Lemma block_key_length_ok_spec : forall n, block_key_length_ok n = true <-> (n = 16 \/ n = 24 \/ n = 32)%nat.
+Proof.
+  intro n. unfold block_key_length_ok. rewrite !orb_true_iff, !Nat.eqb_eq. tauto.
+Qed.
+
+Lemma config_keyset_accepts : forall h b ks, config_keyset h b = Some ks ->
+  hk ks = h /\
+  ((b = [] /\ bk ks = None) \/
+   (bk ks = Some b /\ (List.length b = 16 \/ List.length b = 24 \/ List.length b = 32)%nat)).
+Proof.
+  intros h b ks H. unfold config_keyset in H. destruct b as [|c b'].
+  - injection H as <-. split; [reflexivity | left; split; reflexivity].
+  - destruct (block_key_length_ok (List.length (c :: b'))) eqn:L; [|discriminate].
+    injection H as <-. split; [reflexivity|]. right. split; [reflexivity|].
+    apply block_key_length_ok_spec. exact L.
+Qed.
+
+Lemma config_keyset_refuses : forall h b, config_keyset h b = None <->
+  (List.length b <> 0 /\ List.length b <> 16 /\ List.length b <> 24 /\ List.length b <> 32)%nat.
+Proof.
+  intros h b. unfold config_keyset. destruct b as [|c b'].
+  - split; [discriminate | intros (H & _); exfalso; apply H; reflexivity].
+  - destruct (block_key_length_ok (List.length (c :: b'))) eqn:L.
+    + split; [discriminate|]. intros (_ & H1 & H2 & H3). apply block_key_length_ok_spec in L. exfalso. tauto.
+    + split; [|reflexivity]. intros _. split; [cbn [List.length]; lia|].
+      assert (N : ~ (List.length (c :: b') = 16 \/ List.length (c :: b') = 24 \/ List.length (c :: b') = 32)%nat).
+      { intro X. apply block_key_length_ok_spec in X. congruence. }
+      tauto.
+Qed.
+
+(* a block key of a valid length is the block key of the hub: never dropped, never replaced *)
+Lemma config_keyset_keeps_block_key : forall h b,
+  (List.length b = 16 \/ List.length b = 24 \/ List.length b = 32)%nat ->
+  config_keyset h b = Some {| hk := h; bk := Some b |}.
+Proof.
+  intros h b L. unfold config_keyset. destruct b as [|c b'].
+  - cbn in L. lia.
+  - apply block_key_length_ok_spec in L. rewrite L. reflexivity.
+Qed.
+
+Lemma config_keyset_inj : forall h1 b1 h2 b2 ks,
+  config_keyset h1 b1 = Some ks -> config_keyset h2 b2 = Some ks -> h1 = h2 /\ b1 = b2.
+Proof.
+  intros h1 b1 h2 b2 ks H1 H2.
+  destruct (config_keyset_accepts _ _ _ H1) as (E1 & [(B1 & K1) | (K1 & _)]);
+  destruct (config_keyset_accepts _ _ _ H2) as (E2 & [(B2 & K2) | (K2 & _)]); split; try congruence.
+Qed.
+
+Section ConfiguredHubs.
+Context {data : Type}.
+Context (O : oracles bytes bytes data).
+
+(* ids of a hub with a configured block key are encrypted with that key *)
+Theorem config_encode_form : forall r h b ks ts iv d s, b <> [] ->
+  config_keyset h b = Some ks -> encode O r ks ts iv d = Ok s ->
+  exists p, ser O d = Some p /\
+    let v := b64enc (iv ++ ctr O b iv p) in
+    s = id_string r ts v (hmac O h (mac_msg (role_name r) ts v)).
+Proof.
+  intros r h b ks ts iv d s NE C E.
+  destruct (config_keyset_accepts _ _ _ C) as (HK & [(B & _) | (BK & _)]); [contradiction|].
+  destruct (encode_form O _ _ _ _ _ _ E) as (p & Hp & F). exists p. split; [exact Hp|].
+  rewrite BK, HK in F. exact F.
+Qed.
+
+(* two configured hubs: acceptance by both forces the HMAC equation between the two hash keys *)
+Theorem config_key_separation : forall r h1 b1 h2 b2 k1 k2 s d1 d2,
+  config_keyset h1 b1 = Some k1 -> config_keyset h2 b2 = Some k2 ->
+  decode O r k1 s = Ok d1 -> decode O r k2 s = Ok d2 ->
+  exists ts v, s = id_string r ts v (hmac O h1 (mac_msg (role_name r) ts v)) /\
+    hmac O h1 (mac_msg (role_name r) ts v) = hmac O h2 (mac_msg (role_name r) ts v).
+Proof.
+  intros r h1 b1 h2 b2 k1 k2 s d1 d2 C1 C2 D1 D2.
+  destruct (config_keyset_accepts _ _ _ C1) as (<- & _). destruct (config_keyset_accepts _ _ _ C2) as (<- & _).
+  exact (key_separation O r k1 k2 s d1 d2 D1 D2).
+Qed.
+
+(* an id minted by a hub with block key b1, presented to a hub configured with another block key
+   (or none): whatever the second hub answers is what protobuf makes of the value read with ITS key;
+   the minting hub's key has been applied, so the second hub sees the plain serialization only if
+   the two keystreams cancel *)
+Theorem config_other_block_key : forall r h1 b1 h2 b2 k1 k2 ts iv d s d2,
+  b1 <> [] -> List.length iv = iv_size -> parse_int_ok ts = true ->
+  config_keyset h1 b1 = Some k1 -> config_keyset h2 b2 = Some k2 ->
+  encode O r k1 ts iv d = Ok s -> decode O r k2 s = Ok d2 ->
+  exists p, ser O d = Some p /\
+    match b2 with
+    | [] => deser O (iv ++ ctr O b1 iv p) = Some d2
+    | _ => ctr O b1 iv p <> [] /\ deser O (ctr O b2 iv (ctr O b1 iv p)) = Some d2
+    end.
+Proof.
+  intros r h1 b1 h2 b2 k1 k2 ts iv d s d2 NE L T C1 C2 E D.
+  destruct (config_encode_form _ _ _ _ _ _ _ _ NE C1 E) as (p & Hp & F). cbv zeta in F.
+  exists p. split; [exact Hp|].
+  destruct (decode_sound O _ _ _ _ D) as (ts' & v' & m' & S & N1 & N2 & _ & _ & P).
+  rewrite F in S.
+  destruct (id_string_inj _ _ _ _ _ _ _ (parse_int_nopipe _ T) (b64enc_no_pipe _) N1 N2 S) as (_ & <- & _).
+  unfold payload in P. rewrite b64_roundtrip in P.
+  destruct (config_keyset_accepts _ _ _ C2) as (_ & [(-> & K2) | (K2 & LB)]); rewrite K2 in P; cbn [decrypt] in P.
+  - exact P.
+  - destruct b2 as [|c2 b2']; [cbn in LB; lia|].
+    destruct (iv_size <? List.length (iv ++ ctr O b1 iv p))%nat eqn:Q; [|discriminate].
+    rewrite <- L in P at 1 2. rewrite firstn_app_exact, skipn_app_exact in P. split; [|exact P].
+    intro Z. rewrite Z, app_nil_r, L, Nat.ltb_irrefl in Q. discriminate.
+Qed.
+End ConfiguredHubs.
